@@ -164,8 +164,12 @@ Plan generate(Rng &rng, const Opts &opts, uint64_t)
                 }
             } else {
                 long d = docs[rng.below(docs.size())];
-                p.steps.push_back(mk(t, "PARSE", {sid, d, long(rng.below(4) != 0), inst}));
+                bool discard = rng.chance(1, 8); // the client does not keep the model: only the parser's issues refer to it
+                p.steps.push_back(mk(t, "PARSE", {sid, d, long(rng.below(4) != 0), inst, discard ? 1 : 0}));
                 docOf[sid] = d;
+                if (discard) {
+                    continue;
+                }
             }
             ms.push_back(sid);
         } else if (r < 38) {
@@ -192,6 +196,14 @@ Plan generate(Rng &rng, const Opts &opts, uint64_t)
         } else if (r < 89) {
             p.steps.push_back(mk(t, "CLONE", {sid, ms[rng.below(ms.size())]}));
             ms.push_back(sid);
+        } else if (r >= 97) {
+            // the client edits one identifier of one of its models (services that remember anything about the model must notice)
+            p.steps.push_back(mk(t, "EDIT", {sid, ms[rng.below(ms.size())], long(rng.below(8)), long(rng.below(16)), long(rng.below(3))}));
+        } else if (r >= 95 && ms.size() > 1) {
+            // the client lets go of a model; what services still say about it (issues and their items) must stay coherent
+            size_t k = rng.below(ms.size());
+            p.steps.push_back(mk(t, "DROP", {sid, ms[k]}));
+            ms.erase(ms.begin() + long(k));
         } else if (r < 94) {
             p.steps.push_back(mk(t, "ANNOT", {sid, ms[rng.below(ms.size())], inst}));
             if (inst != 0 && rng.chance(2, 3)) {
@@ -228,6 +240,17 @@ std::set<size_t> sliceFor(const Plan &p, size_t probe)
                 todo.push_back(it->second);
             }
         };
+        if (s.op == "EDIT" || s.op == "DROP") {
+            dep(s.arg(1));
+        }
+        if (s.op != "BUILD" && s.op != "PARSE" && s.op != "EQUALS") {
+            // every earlier edit of the model this step works on belongs to the slice
+            for (size_t j = 0; j < i; ++j) {
+                if (p.steps[j].op == "EDIT" && p.steps[j].arg(1) == s.arg(1)) {
+                    todo.push_back(j);
+                }
+            }
+        }
         if (s.op == "PRINT" || s.op == "VALIDATE" || s.op == "ANALYSE" || s.op == "CLONE" || s.op == "ANNOT" || s.op == "GENERATE" || s.op == "RESOLVE" || s.op == "FLATTEN") {
             dep(s.arg(1));
         }
@@ -269,7 +292,7 @@ std::vector<Plan> auxiliary(const Plan &p)
         for (long k = 0; k < probes * 3 && long(chosen.size()) < probes; ++k) {
             size_t i = size_t(rng.below(p.steps.size()));
             const std::string &op = p.steps[i].op;
-            if (op != "BUILD" && op != "EQUALS") {
+            if (op != "BUILD" && op != "EQUALS" && op != "EDIT" && op != "DROP") {
                 chosen.insert(i);
             }
         }
@@ -393,6 +416,13 @@ void execute(const Plan &plan, Ctx &ctx)
                 parser = slot;
             }
             auto model = parser->parseModel(corpus()[d].text);
+            if (s.arg(4) != 0) {
+                // the result is not kept: what the parser's issues refer to must still be there
+                model = nullptr;
+                checkLogger(ctx, parser, "parser", "parseModel(result discarded)", false);
+                ctx.count("purity_parse_result_discarded");
+                continue;
+            }
             checkLogger(ctx, parser, "parser", "parseModel", model == nullptr);
             w.models[sid] = model;
             w.modelDoc[sid] = long(d);
@@ -475,6 +505,114 @@ void execute(const Plan &plan, Ctx &ctx)
             w.models[sid] = model;
             w.modelDoc[sid] = -1;
             w.held.push_back({sid, "model", "BUILD", dumpModel(model), model, nullptr});
+            continue;
+        } else if (s.op == "EDIT") {
+            auto it = w.models.find(s.arg(1));
+            if (it == w.models.end() || it->second == nullptr) {
+                continue;
+            }
+            ctx.begin(stepNo, "EDIT", "");
+            auto m = it->second;
+            std::vector<ComponentPtr> comps;
+            allComponents(m, comps);
+            std::string id = s.arg(4) == 0 ? "" : "edited_" + str(s.arg(3)) + "_" + str(sid);
+            size_t pick = size_t(s.arg(3));
+            bool done = false;
+            switch (s.arg(2) % 8) {
+            case 0:
+                m->setId(id);
+                done = true;
+                break;
+            case 1:
+                if (!comps.empty()) {
+                    comps[pick % comps.size()]->setId(id);
+                    done = true;
+                }
+                break;
+            case 2:
+            case 3:
+            case 4:
+            case 5: {
+                std::vector<ResetPtr> resets;
+                std::vector<VariablePtr> vars;
+                for (auto &c : comps) {
+                    for (size_t k = 0; k < c->resetCount(); ++k) {
+                        resets.push_back(c->reset(k));
+                    }
+                    for (size_t k = 0; k < c->variableCount(); ++k) {
+                        vars.push_back(c->variable(k));
+                    }
+                }
+                if (s.arg(2) % 8 == 2 && !vars.empty()) {
+                    vars[pick % vars.size()]->setId(id);
+                    done = true;
+                } else if (!resets.empty()) {
+                    auto r = resets[pick % resets.size()];
+                    if (s.arg(2) % 8 == 3) {
+                        r->setId(id);
+                    } else if (s.arg(2) % 8 == 4) {
+                        r->setTestValueId(id);
+                    } else {
+                        r->setResetValueId(id);
+                    }
+                    done = true;
+                }
+                break;
+            }
+            case 6:
+                if (m->unitsCount() > 0) {
+                    m->units(pick % m->unitsCount())->setId(id);
+                    done = true;
+                }
+                break;
+            default:
+                m->setEncapsulationId(id);
+                done = true;
+            }
+            if (done) {
+                ctx.count("purity_client_edits_an_identifier");
+                for (auto &h : w.held) {
+                    if (h.model == m) {
+                        h.dumpAtReturn = dumpModel(m); // the client's own edit, not a rewrite by a later call
+                    }
+                }
+            }
+            continue;
+        } else if (s.op == "DROP") {
+            auto it = w.models.find(s.arg(1));
+            if (it == w.models.end() || it->second == nullptr) {
+                continue;
+            }
+            ctx.begin(stepNo, "DROP", "");
+            auto m = it->second;
+            w.models.erase(it);
+            w.held.erase(std::remove_if(w.held.begin(), w.held.end(), [&](const Held &h) { return h.model == m; }), w.held.end());
+            for (auto a = w.amodelSource.begin(); a != w.amodelSource.end();) {
+                a = a->second == m ? w.amodelSource.erase(a) : std::next(a);
+            }
+            m = nullptr;
+            ctx.count("purity_client_drops_a_model");
+            // every long-lived service still answers coherently about its last call
+            for (auto &kv : w.parsers) {
+                checkLogger(ctx, kv.second, "parser", "issues after a model was dropped", false);
+            }
+            for (auto &kv : w.validators) {
+                checkLogger(ctx, kv.second, "validator", "issues after a model was dropped", false);
+            }
+            for (auto &kv : w.analysers) {
+                checkLogger(ctx, kv.second, "analyser", "issues after a model was dropped", false);
+            }
+            for (auto &kv : w.importers) {
+                if (kv.second != nullptr) {
+                    checkLogger(ctx, kv.second, "importer", "issues after a model was dropped", false);
+                }
+            }
+            for (auto &kv : w.printers) {
+                checkLogger(ctx, kv.second, "printer", "issues after a model was dropped", false);
+            }
+            for (auto &kv : w.annotators) {
+                checkLogger(ctx, kv.second, "annotator", "issues after a model was dropped", false);
+            }
             continue;
         } else if (s.op == "CLONE") {
             auto it = w.models.find(s.arg(1));
